@@ -157,7 +157,10 @@ def gen_program(rng, big_ok=True):
                     limit = TARGETS[cpu][7]
                     if addr >= limit - 10:
                         addr = 0
-                    lines.append('\torg\t%d' % addr)
+                        lines.append('\torg\t%d' % addr)
+                    elif rng.random() < 0.3:
+                        lines.append('\torg\t%d' % addr)
+                    # else: no ORG - every segment keeps its own counter, CODE continues where it was left
                 cur = None
             else:
                 pass
